@@ -222,3 +222,32 @@ Theorem C08_F2_nodecode_pinned_refuted :
   decode_keep_slash "a%2fb" = "a%2Fb".
 Proof. exact F2_nodecode_refuted. Qed.
 Print Assumptions C08_F2_nodecode_pinned_refuted.
+
+(** * 4. The Envoy entry point (grpcv3 request context, since fix: commit ae6db4f)
+
+    [serve_envoy]: the received path is the raw path as it is, without net/http's
+    target validation and without the EscapedPath round trip. *)
+
+Theorem C08_reencoding_invariant_envoy : forall rules dflt host q p p',
+  reenc p p' ->
+  guard_F1 rules p p' = false ->
+  decision_eq (serve_envoy repaired rules dflt host p q) (serve_envoy repaired rules dflt host p' q).
+Proof. exact reencoding_invariant_envoy_repaired. Qed.
+Print Assumptions C08_reencoding_invariant_envoy.
+
+(** no guard at all: also with bytes net/url would not accept (C08-F4 does not
+    reach the `off` check through Envoy) *)
+Theorem C08_off_rejects_encoded_slash_envoy : forall rules dflt host q p rid d cs up,
+  enc_slash p = true ->
+  serve_envoy repaired rules dflt host p q = Accepted rid d cs up ->
+  d = false /\ exists r, In r rules /\ r_id r = rid /\ r_setting r <> Off.
+Proof. exact off_rejects_encoded_slash_envoy_repaired. Qed.
+Print Assumptions C08_off_rejects_encoded_slash_envoy.
+
+(** … but C08-F4 still shows in the upstream request line under `no_decode` *)
+Theorem C08_F4_envoy_upstream_refuted :
+  guard_F4 "/files/a%2Fb^" = true /\
+  exists u, serve_envoy repaired w_rules_nd false "h" "/files/a%2Fb^" "" = Accepted "nd" false [("rest", "a%2Fb^")] (Some u) /\
+            u_rawpath u = "/files/a%2Fb^" /\ wire_path u = "/files/a/b%5E".
+Proof. exact F4_envoy_upstream_witness. Qed.
+Print Assumptions C08_F4_envoy_upstream_refuted.
